@@ -190,7 +190,9 @@ func (c *Conn) writeClose(code StatusCode, reason string) error {
 	// If the connection closed as we're writing we ignore the error as we might
 	// have written the close frame, the peer responded and then someone else read it
 	// and closed the connection.
-	if err != nil && !errors.Is(err, net.ErrClosed) {
+	// Likewise if a close frame has already been sent, e.g. because of a protocol
+	// error or because we are echoing the peer's reply to our own close frame.
+	if err != nil && !errors.Is(err, net.ErrClosed) && !errors.Is(err, errCloseSent) {
 		return err
 	}
 	return nil
